@@ -45,7 +45,7 @@ func VerifH_C20_Mux() {
 	_ = nilPayload
 	// pristine copy made by the harness, never handed out
 	keep := &Message{Topic: orig.Topic, ID: orig.ID, QoS: orig.QoS, Retain: orig.Retain, Dup: orig.Dup, Payload: append([]byte{}, orig.Payload...)}
-	nh := verifChoice("handlers", 2) + 2
+	nh := verifChoice("handlers", 3) + 1 // 1, 2 or 3 matching handlers
 	mux := &ServeMux{}
 	seen := 0
 	for i := 0; i < nh; i++ {
